@@ -139,6 +139,18 @@ func toI(v any) int64 {
 		return x
 	case uint64:
 		return int64(x)
+	case int8:
+		return int64(x)
+	case int16:
+		return int64(x)
+	case int32:
+		return int64(x)
+	case uint8:
+		return int64(x)
+	case uint16:
+		return int64(x)
+	case uint32:
+		return int64(x)
 	case bool:
 		if x {
 			return 1
